@@ -35,7 +35,7 @@ def main(tier):
                          (name, 'BDRY' if row['gt'] else 'CENTRE', SD[row['sd']], 'EQ' if row['st'] == 1 else 'INEQ', row['gap'], row['base']), row)
     rows = len(tab['recs'])
     # TGLF round trip
-    n = 400 if quick else 8000
+    n = 1500 if quick else 8000
     gf = os.path.join(d, 'tglf.json')
     V.run([hd, 'tglf', str(n), str(V.seed()), gf], check=True, timeout=1200)
     r2 = V.tlc(os.path.join(SP, 'Tglf.tla'), os.path.join(SP, 'Tglf.cfg'), env={'TGLFRECS': gf}, timeout=2400, cont=True)
